@@ -643,6 +643,15 @@ pub fn check_invocation(sc: &E2Scenario, inv: &Invocation, rep: &mut RunReport, 
         let Some(text) = inv.before.get(&nf) else { continue };
         let text = String::from_utf8_lossy(text).into_owned();
         let idx = TokIndex::new(&text);
+        if inv.format == "rdjson" {
+            // rdjson also carries parse-stage errors (pest reports the furthest position reached,
+            // serde_json a byte column): inside the file or at its end.  Check-stage positions
+            // are judged in the json format, and item 6 demands the same positions in both.
+            if !(idx.inside(d.line, d.col) || d.line <= text.split('\n').count()) {
+                rep.violate(&["C18"], "C18.5-diagnostic-outside-file", format!("{what}: {f}:{}:{} lies outside the file", d.line, d.col));
+            }
+            continue;
+        }
         if !idx.inside(d.line, d.col) {
             rep.violate(&["C18"], "C18.5-diagnostic-outside-file", format!("{what}: {f}:{}:{} lies outside the file", d.line, d.col));
         } else if idx.at(d.line, d.col).is_none() && !on_import_line(&text, d.line, d.col) {
@@ -899,16 +908,23 @@ fn drive_c18(sc: &E2Scenario, rep: &mut RunReport) {
             rep.violate(&["C18"], "C18.6-formats-exit-differs", format!("`{cmd}`: exit json={} rdjson={} human={}", j.0.exit, rj.0.exit, hu.0.exit));
         }
         if let (Some(pj), Some(pr)) = (&j.1, &rj.1) {
-            let a: Vec<(Option<String>, usize, usize)> = pj.diags.iter().map(|d| (d.file.clone(), d.line, d.col)).collect();
-            let b: Vec<(Option<String>, usize, usize)> = pr.diags.iter().map(|d| (d.file.clone(), d.line, d.col)).collect();
+            let inputs: Vec<String> = sc.schema_inputs().into_iter().chain(sc.op_inputs()).collect();
+            let mut a: Vec<(Option<String>, usize, usize)> = pj.diags.iter().map(|d| (d.file.as_ref().map(|f| indep::norm(f)), d.line, d.col)).collect();
+            let b: Vec<(Option<String>, usize, usize)> = pr.diags.iter().map(|d| (d.file.as_ref().map(|f| indep::norm(f)), d.line, d.col)).collect();
+            // command-level errors that the json format locates inside its message (syntax errors)
+            // are diagnostics, too: rdjson carries them as located entries
+            if let Some(m) = &pj.command_error {
+                for (f, l, c) in located_in_text(m, &inputs) {
+                    a.push((Some(f), l, c));
+                }
+            }
             // unlocated json diagnostics have no rdjson position to compare
             let a2: Vec<_> = a.iter().filter(|x| x.0.is_some()).cloned().collect();
             let b2: Vec<_> = b.iter().filter(|x| x.0.is_some()).cloned().collect();
-            if a2 != b2 || pj.diags.len() != pr.diags.len() {
+            if a2 != b2 || a.len() != b.len() {
                 rep.violate(&["C18"], "C18.6-json-rdjson-differ", format!("`{cmd}`: json lists {a:?}, rdjson lists {b:?}"));
             }
             // the human rendering shows every located json diagnostic
-            let inputs: Vec<String> = sc.schema_inputs().into_iter().chain(sc.op_inputs()).collect();
             let shown: BTreeSet<(String, usize, usize)> = located_in_text(&hu.0.stderr_str(), &inputs).into_iter().collect();
             for (f, l, c) in a2 {
                 let f = indep::norm(&f.unwrap());
